@@ -30,6 +30,9 @@ def answer (line : String) : String :=
     | "single" => singleLine toks
     | "singleinit" => singleInitLine toks
     | "eager" => eagerLine toks
+    | "subfine" => subFineLine toks
+    | "handover" => handoverLine toks
+    | "singlenested" => singleNestedLine toks
     | "reg" => regLine toks
     | "tsa" => tsaLine toks
     | "strip" => stripLine toks
